@@ -1157,6 +1157,130 @@ def run_c07(rep, spec, verbose=False, only=None):
 
 
 # ---------------------------------------------------------------------------------------------------------------------
+# C08, recover(): `$recover` decides "called directly by the deferred function" by comparing JavaScript call depths, so every
+# JavaScript frame the translator or the prelude interposes between a deferred call and the Go method it stands for must take
+# itself out of the count ($stackDepthOffset-- before the call, ++ in a finally).  Rule R-FRAME, checked on the method table
+# entry the real compiler emits for a value-receiver method of a struct type (the forwarding function) and on the wrapper
+# functions of the prelude ($methodExpr, $ifaceMethodExpr, $methodValCopy); a violation is replayed with a real build.
+R_FRAME_GO = '''
+type R struct{ n int }
+func (r R) Rec() bool { return recover() != nil }
+'''
+R_FRAME_DEMO = '''package main
+
+type R struct{ name string }
+
+func (r R) rec() { println(r.name, recover() != nil) }
+
+type I interface{ rec() }
+
+func a() { r := R{"value"}; defer r.rec(); panic("M") }
+func b() { var i I = R{"interface"}; defer i.rec(); panic("M") }
+func c() { r := R{"methodvalue"}; f := r.rec; defer f(); panic("M") }
+func d() { r := R{"methodexpr"}; defer R.rec(r); panic("M") }
+func e() { r := &R{"viapointer"}; defer r.rec(); panic("M") }
+
+func main() {
+	for _, fn := range []func(){a, b, c, d, e} {
+		func() {
+			defer func() { recover() }()
+			fn()
+		}()
+	}
+}
+'''
+
+def _brackets_depth(fn):
+    """the function body has `$stackDepthOffset--` before a try whose finalizer has `$stackDepthOffset++`"""
+    body = fn.get('body', {})
+    stmts = body.get('body') if body.get('type') == 'BlockStatement' else None
+    if not stmts: return False
+    def is_upd(s, op):
+        e = s.get('expression') if s.get('type') == 'ExpressionStatement' else None
+        return bool(e) and e.get('type') == 'UpdateExpression' and e.get('operator') == op and e['argument'].get('name') == '$stackDepthOffset'
+    for i, st in enumerate(stmts):
+        if is_upd(st, '--'):
+            for t in stmts[i + 1:]:
+                if t.get('type') == 'TryStatement' and t.get('finalizer') and any(is_upd(x, '++') for x in t['finalizer']['body']):
+                    return True
+    return False
+
+def _inner_functions(fn):
+    out = []
+    def walk(n):
+        if isinstance(n, list):
+            for x in n: walk(x)
+        elif isinstance(n, dict):
+            if n.get('type') in ('FunctionExpression', 'ArrowFunctionExpression') and n is not fn: out.append(n)
+            for k, v in n.items():
+                if k != 'loc' and isinstance(v, (dict, list)): walk(v)
+    walk(fn.get('body'))
+    return out
+
+def r_frame_replay():
+    from . import nativesreplay as nr
+    try:
+        out = nr.run_program(R_FRAME_DEMO)
+    except Exception as e:
+        return {'violates': False, 'note': 'real build failed: %s' % str(e)[-300:]}
+    bad = [l for l in out.splitlines() if l.strip().endswith('false')]
+    res = {'harness': 'gopherjs built from /repo, program compiled with it and run under node', 'program': R_FRAME_DEMO, 'output': out.strip(), 'violated_clauses': []}
+    if bad:
+        res['violated_clauses'].append('recover() called directly by a deferred value-receiver method returned nil: %s (Go prints true on every line)' % '; '.join(bad))
+    res['violates'] = bool(bad)
+    return res
+
+def run_c08_frames(rep, spec, verbose=False, only=None):
+    from .smt import Obligation
+    if only and 'R_FRAME' not in only and 'frame' not in only.lower():
+        return []
+    gosrc = 'package main\n\nfunc main() {}\n' + R_FRAME_GO
+    with tempfile.TemporaryDirectory(prefix='gvc-pat-') as td:
+        keep = os.path.join(td, 'pkg.js')
+        out, err = e2e.run(gosrc, 'console.log("compiled")', keep=keep)
+        if out is None or not os.path.exists(keep):
+            rep.undecided.append(('pattern R_FRAME', 'the real compiler did not produce output: %s' % (err or '')[-300:])); return []
+        dump = run_jsdump([keep, os.path.join(props_repo(), 'compiler', 'prelude', 'prelude.js')])
+    sites = []
+    # the forwarding function of the value type: R.prototype.Rec = function(...$args) { ... this.$val ... }
+    hits = []
+    def walk(n):
+        if isinstance(n, list):
+            for x in n: walk(x)
+        elif isinstance(n, dict):
+            if n.get('type') == 'AssignmentExpression' and n['left'].get('type') == 'MemberExpression' and n['left']['property'].get('name') == 'Rec' \
+               and n['left']['object'].get('type') == 'MemberExpression' and n['left']['object']['property'].get('name') == 'prototype' \
+               and n['left']['object']['object'].get('name') == 'R' and n['right'].get('type') in ('FunctionExpression', 'ArrowFunctionExpression'):
+                hits.append(n['right'])
+            for k, v in n.items():
+                if k != 'loc' and isinstance(v, (dict, list)): walk(v)
+    walk(dump['pkg.js']['program'])
+    if not hits:
+        rep.undecided.append(('pattern R_FRAME', 'the method table entry R.prototype.Rec was not found in the emitted package')); return []
+    sites.append(('method table entry of the value type (forwarding function)', hits[0]))
+    for helper in ('$methodExpr', '$ifaceMethodExpr', '$methodValCopy'):
+        fn = _find_prelude_fn(dump['prelude.js']['program'], helper)
+        if fn is None:
+            if helper == '$methodValCopy': continue          # (the helper need not exist)
+            rep.undecided.append(('pattern R_FRAME', '%s not found in prelude.js' % helper)); continue
+        inner = _inner_functions(fn)
+        if not inner:
+            rep.undecided.append(('pattern R_FRAME', '%s has no wrapper function' % helper)); continue
+        sites.append(('wrapper made by %s' % helper, inner[0]))
+    obls = []
+    rep.functions.append('emitted R.prototype.Rec + prelude method wrappers')
+    for what, fn in sites:
+        ok = _brackets_depth(fn)
+        o = Obligation('pattern R_FRAME/%s takes its frame out of the depth count' % what, [], z3.BoolVal(ok), 'proof', func='pattern R_FRAME', src=_src(fn))
+        o.status, o.answer, o.solver = ('discharged', 'unsat', 'rule R-FRAME') if ok else ('failed', 'sat', 'rule R-FRAME')
+        if not ok:
+            o.output = 'the wrapper at %s calls through without $stackDepthOffset--/++' % _src(fn); o.model = {}
+            o.meta['replayer'] = (lambda ob, model: r_frame_replay())
+        obls.append(o)
+    rep.extra_trusted.append('proof rule R-FRAME (interposed JavaScript frames are taken out of the depth count that recover() uses): argued in gvc/core/patterns.py')
+    return obls
+
+# ---------------------------------------------------------------------------------------------------------------------
 # C06: 64-bit integer -> float conversions.  The translator emits `$flatten64(x)` (float64) or `$fround($flatten64(x))`
 # (float32) and $flatten64 is `x.$high * 4294967296 + x.$low`.  Both shapes are checked on the ESTree of the current tree;
 # the value is then the IEEE-754 term below and is compared, for ALL 2^64 operands, with Go's conversion (the integer
